@@ -646,7 +646,12 @@ func (app *EVMApp) queryContract(load []byte, height uint64) gtypes.Result {
 
 	if height == 0 {
 
-		envCxt := core.NewEVMContext(txMsg, app.currentHeader, bc, nil)
+		header := app.currentHeader
+		if header == nil {
+			// no block has been executed since the application started (fresh chain or restart)
+			header = app.lastCommittedHeader()
+		}
+		envCxt := core.NewEVMContext(txMsg, header, bc, nil)
 
 		app.stateMtx.Lock()
 		vmEnv = vm.NewEVM(envCxt, app.state.Copy(), app.chainConfig, queryConfig)
@@ -680,6 +685,24 @@ func (app *EVMApp) queryContract(load []byte, height uint64) gtypes.Result {
 	}
 
 	return gtypes.NewResultOK(res, "")
+}
+
+// lastCommittedHeader rebuilds the EVM header of the last committed block, i.e. the value app.currentHeader
+// had when that block was executed, from the block store; at genesis (or without a block store) it is the
+// header of height 0.
+func (app *EVMApp) lastCommittedHeader() *etypes.Header {
+	height := app.Info().LastBlockHeight
+	if height > 0 && app.core != nil {
+		if blockMeta, err := app.core.GetBlockMeta(height); err == nil && blockMeta != nil && blockMeta.Header != nil {
+			return makeETHHeader(blockMeta.Header)
+		}
+	}
+	return &etypes.Header{
+		Difficulty: big.NewInt(0),
+		GasLimit:   math.MaxUint64,
+		Time:       big.NewInt(0),
+		Number:     big.NewInt(height),
+	}
 }
 
 func makeETHHeader(header *gtypes.Header) *etypes.Header {
